@@ -88,6 +88,24 @@ func siteHosts() []namedLayout {
 	}
 }
 
+// slowStart delays its first Read a little (a reader that is not ready at once): whoever reads the readers in order
+// does not care.
+type slowStart struct {
+	r       io.Reader
+	started bool
+}
+
+func (s *slowStart) Read(p []byte) (int, error) {
+	if !s.started {
+		s.started = true
+		time.Sleep(2 * time.Millisecond)
+	}
+	return s.r.Read(p)
+}
+
+// sharedStreamBudget bounds the number of shared-stream cases per worker (each waits 2 ms per reader).
+var sharedStreamBudget = 400
+
 func parseTree(srcs []string) (d *tree.Dialogue, err error, pan string) {
 	defer func() {
 		if r := recover(); r != nil {
@@ -428,6 +446,31 @@ func runC08(ctx *report.Ctx) {
 				q := *p
 				q.Split = comp
 				b.compare(ctx, c, "readers", "readers-"+intsString(comp)+"-"+g.name, yc.Render(&q, g.lay), true)
+			}
+			// the readers are read one after the other, in order: readers that are successive views of one stream
+			// (io.LimitReader over the first part, then the stream itself) give the script passed in one piece
+			if sharedStreamBudget > 0 {
+				sharedStreamBudget--
+				q := *p
+				q.Split = comp
+				parts := yc.Render(&q, nil)
+				stream := strings.NewReader(strings.Join(parts, ""))
+				var rs []io.Reader
+				for k, part := range parts {
+					if k == len(parts)-1 {
+						rs = append(rs, stream)
+					} else {
+						rs = append(rs, &slowStart{r: io.LimitReader(stream, int64(len(part)))})
+					}
+				}
+				d, err := tree.FromReaders(rs...)
+				ctx.AddEvals(1, 1)
+				ctx.AddStates(1)
+				ctx.AddTransitions(1)
+				if err != nil || !reflect.DeepEqual(d, b.tree) {
+					ctx.Violation(report.Violation{Clause: "layout-readers-shared-stream", Witness: "readers-" + intsString(comp) + " as successive views of one stream :: " + visualize(scriptOf(parts)),
+						Detail: fmt.Sprintf("the nodes spread over readers that are successive views of one stream (each reader but the last is an io.LimitReader over it) do not give the dialogue of the canonical rendering: error %v", err), Choices: c.Choices(), Part: "readers"})
+				}
 			}
 			// what may precede the first node of a script may precede the first node of every reader: file-level
 			// hashtags, comments, blank lines - every non-empty subset of the readers gets each kind of opening
